@@ -218,6 +218,18 @@ def programs(tier):
         for cname, (decl_, body, val) in ctxs.items():
             text = decl_.format(A=a, B=b) + "fn main() -> unit {\n" + body.format(A=a, B=b) + "    let _ = string_println(int32_to_string(r));\n    ()\n}\n"
             out.append({"prog": TextProgram(f"c19_near_{a}_{b}_{cname}".replace("-", "_"), text, [val]), "family": "c19", "ident": f"c19:near-names:{a}+{b}:{cname}", "expect": "accept"})
+    # ---- user names that contain the character the compiler's internal separator `#` is mapped to: `inherent#A#A_A_b` and
+    # `inherent#A_A#b`, `trait_impl#A#B_C#m` and `trait_impl#A_B#C#m` must stay two Go functions (OPEN finding: go_ident maps `#` and `_` alike)
+    seps = {
+        "inherent-methods": ("struct A { v: int32 }\nstruct A_A { w: int32 }\nimpl A { fn A_A_b(self: A) -> int32 { self.v } }\nimpl A_A { fn b(self: A_A) -> int32 { self.w } }\n",
+                             "A { v: 1 }.A_A_b() + A_A { w: 2 }.b()", "3"),
+        "trait-impls": ("trait A { fn m(Self) -> int32; }\ntrait A_B { fn m(Self) -> int32; }\nstruct B_C { v: int32 }\nstruct C { w: int32 }\n"
+                        "impl A for B_C { fn m(self: B_C) -> int32 { self.v } }\nimpl A_B for C { fn m(self: C) -> int32 { self.w } }\n",
+                        "A::m(B_C { v: 1 }) + A_B::m(C { w: 2 })", "3"),
+    }
+    for name, (decl_, expr, val) in seps.items():
+        text = decl_ + f"fn main() -> unit {{\n    let r: int32 = {expr};\n    let _ = string_println(int32_to_string(r));\n    ()\n}}\n"
+        out.append({"prog": TextProgram("c19_separator_" + name.replace("-", "_"), text, [val]), "family": "c19", "ident": f"c19:separator-in-user-names:{name}", "expect": "accept"})
     # ---- a function called `main` in an imported package is an ordinary function (only the root package's `main` is the entry)
     out.append({"prog": TextProgram("c19_library_function_main", "package Main\nimport Lib\n\nfn main() -> unit {\n    let _ = string_println(int32_to_string(Lib::main() + Lib::twice()));\n    ()\n}\n", ["123"]),
                 "family": "c19", "ident": "c19:library-function-named-main", "expect": "accept",
